@@ -355,6 +355,21 @@ pub fn build_query(id: u16, flags: u16, qs: &[(Vec<u8>, u16, u16)]) -> Vec<u8> {
 }
 
 pub fn gen_in_a_query(rng: &mut Rng) -> Vec<u8> {
+    if rng.chance(1, 25) {
+        // very many questions (short names, so that the query fits one frame)
+        let n = *rng.pick(&[20usize, 64, 100, 101, 128, 200, 255, 256, 300]);
+        let qs: Vec<(Vec<u8>, u16, u16)> = (0..n)
+            .map(|k| {
+                let mut name = vec![1u8, b'a' + (k % 26) as u8];
+                if k % 3 == 0 {
+                    name.extend_from_slice(&[2, b'x', b'0' + (k % 10) as u8]);
+                }
+                name.push(0);
+                (name, 1u16, 1u16)
+            })
+            .collect();
+        return build_query(rng.u16(), gen_flags_query(rng), &qs);
+    }
     let n = match rng.below(8) {
         0 => 0,
         1..=4 => 1,
